@@ -931,6 +931,7 @@ fn check_injection(rep: &mut Report, rng: &mut Rng, idx: u64) {
         options.push(("degenerate:trigger-numbers", Effect::DropsAppender));
         options.push(("degenerate:roller-numbers", Effect::DropsAppender));
         options.push(("missing:roller-pattern-braces", Effect::DropsAppender));
+        options.push(("missing:required-number", Effect::DropsAppender));
     }
     if matches!(victim.kind, Kind::File { .. } | Kind::Rolling { .. }) {
         options.push(("wrong-type:append", Effect::DropsAppender));
@@ -969,6 +970,21 @@ fn check_injection(rep: &mut Report, rng: &mut Rng, idx: u64) {
             } else {
                 false
             }
+        }
+        "missing:required-number" => {
+            // a required number that is simply absent: the roller's `count`, the size trigger's `limit`,
+            // the roller's `pattern` (whichever the victim has)
+            let mut done = false;
+            let roller_is_fw = doc["appenders"][&vname]["policy"]["roller"]["kind"] == json!("fixed_window");
+            let trigger_is_size = doc["appenders"][&vname]["policy"]["trigger"]["kind"] == json!("size");
+            let first = rng.below(2) == 0;
+            if roller_is_fw && (first || !trigger_is_size) {
+                done = doc["appenders"][&vname]["policy"]["roller"].as_object_mut().map(|m| m.remove("count").is_some()).unwrap_or(false);
+            }
+            if !done && trigger_is_size {
+                done = doc["appenders"][&vname]["policy"]["trigger"].as_object_mut().map(|m| m.remove("limit").is_some()).unwrap_or(false);
+            }
+            done
         }
         "degenerate:trigger-numbers" => {
             never_panic_only = true;
